@@ -496,9 +496,8 @@ package protocol
 //@ func (t *StreamUnderlay) maybeInitSendBlockCipher() (err error)
 //@   property C05
 //@   mode int
-//@   noframe
-//@   preserves ghost(wr), ghost(dsent), StreamUnderlay.recv
 //@   requires t != nil && (t.isClient ==> t.block != nil)
+//@   modifies t.send
 //@   ensures err == nil ==> t.send != nil
 //@   ensures !old(t.isClient) && old(t.send) == nil && old(t.recv) == nil ==> err != nil && t.send == nil
 //@
